@@ -76,6 +76,20 @@ CHECKS = {
                      "reference (stable) merge, return value, inputs advanced by exactly the contributed counts (tags), nothing written beyond target+length "
                      "(exact-size heap blocks under ASan, canaries), inputs unmodified. 1.9e8 merges quick / 3.8e9 thorough.",
                 note="key alphabet of 3, stated k / length caps; comparator looks at the key only, tags make stability observable"),
+    "C06": dict(engine="vsched+venum", technique=E3 + " with every input executed on the scheduler's deterministic default schedule; " + E1 + " for the schedule dimension", design="4/C06",
+                text="Inputs: every key sequence over 3 keys up to length 5/6 plus sorted/reversed/all-equal/organ-pipe/cyclic patterns up to n=14/24 x threads "
+                     "{1..8,16,33} (incl. more threads than elements) x {exact, sampling} x oversampling x stable/unstable x {POD, heap-owning lifetime-tracked element}: "
+                     "sorted permutation, equals std::stable_sort for the stable variant, live-instance count unchanged (temporaries destroyed), input in an exact-size "
+                     "heap block under ASan. Schedules: 7 small inputs x both splittings x both element types under every interleaving within the bound, ASan + TSan "
+                     "(termination, no race).",
+                note="SC interleavings; preemption bound (2 threads) / delay bound (3-4 threads) 1-2 quick, 2-3 thorough; <= 4 distinct keys; n <= 24"),
+    "C17": dict(engine="vhist", technique=E2, design="4/C17",
+                text="BFS closure over every history of put/touch/touch_if_exists/erase/erase_if_exists/get_touch/pop/clear on LruCacheSet/LruCacheMap (4-6 keys) vs a "
+                     "reference recency list incl. exact exception behaviour, and of insert/erase(key)/erase(node)/exists/find/clear on SplayTree set (6-9 keys) and "
+                     "multiset (3 keys, multiplicity 3-5), comparators less/greater, int and heap-owning tracked keys, counting allocator: membership, size, in-order "
+                     "sequence vs std::set/multiset, own BST validity walk over the raw nodes, every node freed exactly once, operations on the empty tree and after clear(), "
+                     "destruction of every reached state; states de-duplicated on the tree shape / recency list.",
+                note="finite key universes as stated; find() compared for membership only (as the property says)"),
 }
 
 NA = {}
